@@ -70,6 +70,20 @@ def rule_ctx(ctx):
         first_set = sets and sets[0]
         ok = ok and bool(first_set) and U.in_body(first_set, tries[0], 'body')
         ctx.ob('C20.ctx', f'{fq}:lock-spans-try', ok, 'the lock is taken before the context is set and released after it is cleared; the set is inside the protected region', f.node, f.module)
+    # the build lock is one real lock for the whole process in every mode: every assignment to it constructs a threading lock
+    # (a no-op context in one mode lets two builds share the single context slot)
+    ws = []
+    for fi in ctx.repo.functions.values():
+        for x in walk_local(fi.node):
+            if isinstance(x, ast.Assign) and any(isinstance(t_, ast.Attribute) and t_.attr == '_def_build_lock' for t_ in x.targets):
+                ws.append((fi, x))
+    ctx.require(len(ws) >= 1, 'C20.ctx', 'no assignment to _def_build_lock found')
+    for fi, x in ws:
+        ctx.ob('C20.ctx', f'{fi.fq}:{norm(x)}:real-lock', norm(x.value) in ('threading.Lock()', 'threading.RLock()'),
+               f'{fi.fq} sets the build lock to {norm(x.value)}: without mutual exclusion a build started while another thread is inside its '
+               f'graph function overwrites the shared build context', x, fi.module)
+    ctx.ob('C20.ctx', 'build-lock:single-owner', len(ws) == 1 and ws[0][0].fq == 'sc3.base.main:Process.__init__',
+           f'the build lock is created once, by Process.__init__; writers: {[w[0].fq for w in ws]}', ws[0][1], ws[0][0].module)
     b = ctx.repo.func('sc3.synth.synthdef:SynthDef._build')
     t = [t for t in walk_local(b.node) if isinstance(t, ast.Try)][0]
     hs = [norm(h.type) if h.type else 'bare' for h in t.handlers]
@@ -262,6 +276,8 @@ def run(ctx):
 
 
 MUTANTS = [
+    dict(rule='C20.ctx', name='NRT replaces the build lock by a no-op context (seed C20-d)', file='sc3/base/main.py',
+         old="        cls._clock_scheduler = clk.ClockScheduler()", new="        cls._clock_scheduler = clk.ClockScheduler()\n        cls._def_build_lock = contextlib.nullcontext()"),
     dict(rule='C20.own', name='(fix reverted) as_bytes hands out a writable view of its cache', file='sc3/synth/synthdef.py',
          old="            self._bytes = stream.getvalue()", new="            self._bytes = stream.getbuffer()"),
     dict(rule='C20.ctx', name='(fix reverted) context reset only for Exception subclasses', file='sc3/synth/synthdef.py',
